@@ -1092,6 +1092,25 @@ fn execute(sim: &mut Sim<'_>) {
     if sim.stopped() {
         return;
     }
+    // (b') a task parked in accept() is woken when a connection becomes ready: with no fault on the wire and
+    // every connect resolved, a listener cannot have both a parked acceptor task and an established
+    // connection nobody was handed
+    if sc.faults.is_empty() && !sc.reorder {
+        sim.poll_accepts();
+        for l in 0..sim.ls.len() {
+            if sim.ls[l].sock.is_none() || sim.ls[l].tasks.is_empty() {
+                continue;
+            }
+            for c in 0..sim.cs.len() {
+                let st = &sim.cs[c];
+                if sc.conns[c].to == Some(l) && st.result.as_ref().map(|r| r.0 == "Ok").unwrap_or(false) && st.accepted_round.is_none() && st.cancelled.is_none() && !st.client_closed && st.result.as_ref().unwrap().1 + 4 < sim.round {
+                    let msg = format!("c{c}: connect to l{l} returned Ok at r{}, {} acceptor task(s) have been parked in accept() on l{l} ever since, none of them was woken (round {})", st.result.as_ref().unwrap().1, sim.ls[l].tasks.len(), sim.round);
+                    sim.fail("AcceptNotWoken", msg);
+                    return;
+                }
+            }
+        }
+    }
     // ---- epilogue 1: both ends of everything are closed; listeners accept-and-close what is queued
     sim.log.ev("epilogue: closing every connection end");
     for c in 0..sim.cs.len() {
